@@ -1628,6 +1628,9 @@ int bufr_compare_value( const BufrValue *bv1, const BufrValue *bv2, double eps )
    return -1;
    }
 
+#define IS_NUMERIC_VALTYPE(t) ((t)==VALTYPE_INT8||(t)==VALTYPE_INT32||(t)==VALTYPE_INT64\
+                               ||(t)==VALTYPE_FLT32||(t)==VALTYPE_FLT64)
+
 /**
  * @english
  * Determine if a BufrValue falls in between two others.
@@ -1654,7 +1657,22 @@ int bufr_compare_value( const BufrValue *bv1, const BufrValue *bv2, double eps )
  */
 int bufr_between_values( const BufrValue *bv1, const BufrValue *bv, const BufrValue *bv2 )
    {
-   if ((bv1->type != bv->type)||(bv2->type != bv->type)) return -1;
+   if ((bv1->type != bv->type)||(bv2->type != bv->type))
+      {
+      /* bounds of another numeric type than the value (e.g. the FLT32 or INT32
+       * values of a search key against a FLT64 element): compare numerically */
+      if (IS_NUMERIC_VALTYPE(bv1->type) && IS_NUMERIC_VALTYPE(bv->type)
+            && IS_NUMERIC_VALTYPE(bv2->type))
+         {
+         double  f1, f2, ff;
+
+         f1 = bufr_value_get_double( bv1 );
+         f2 = bufr_value_get_double( bv2 );
+         ff = bufr_value_get_double( bv );
+         return ((f1 <= ff)&&(ff <= f2)) ? 1 : 0;
+         }
+      return -1;
+      }
 
    switch( bv1->type )
       {
@@ -1695,7 +1713,7 @@ int bufr_between_values( const BufrValue *bv1, const BufrValue *bv, const BufrVa
 
          f1 = bufr_value_get_double( bv1 );
          f2 = bufr_value_get_double( bv2 );
-         ff = bufr_value_get_float( bv );
+         ff = bufr_value_get_double( bv );
          if ((f1 <= ff)&&(ff <= f2)) return 1;
          }
          break;
